@@ -68,7 +68,7 @@ func runC10(c *Ctx) {
 	c10Termination(c, scope)
 	k := c10ImplicitChecks(c, "O-6", roots, scope, nil, nil)
 	c10Matcher(c, k)
-	r.Rule("O-7", "no reference the code itself treats as possibly absent is used as if present: for every struct field of a repository type that shipped code compares with nil, every pointer/map/function value that merges a nil constant, every nil argument and every result of a function that can return a literal nil, each field access, load or store through it, assignment into it (map), call of it, library method on it, and hand-over to a function that needs it lies behind a finding that it is present — a nil test of that value, or for a field a nil test of the same field of the same object, a store of a fresh object or a call that stores one on all its returns, with no possibly-nil store in between; helpers may rely on what every one of their call sites established")
+	r.Rule("O-7", "no reference the code itself treats as possibly absent is used as if present: for every struct field of a repository type that shipped code compares with nil, every pointer/map/function value that merges a nil constant and every nil argument, each field access, load or store through it, assignment into it (map), call of it, library method on it, and hand-over to a function that needs it lies behind a finding that it is present — a nil test of that value, or for a field a nil test of the same field of the same object (directly or through a predicate helper that answers true only then), a store of a fresh object or a call that stores one on all its returns, with no possibly-nil store in between; helpers may rely on what every one of their call sites established")
 	nf, no := nilOptRun(c, "O-7", nil, true, nil)
 	r.Floor("O-7", "fields the code tests for nil", nf, 6)
 	r.Floor("O-7", "functions using a possibly absent reference", no, 12)
